@@ -210,7 +210,7 @@ fn child_panic(w: usize, n: usize, p: usize, scenario: usize) -> ! {
 // thread waiting for the panicking thread) was still blocked when the watchdog fired, 43 the stream of the panicking
 // pipe just ended, 101 the consumer thread itself panicked (unthreaded pipe) and unwound, 44 harness anomaly.
 const HOOK_MAX_PIPES: usize = 5;
-const HOOK_WATCHDOG_MS: u64 = 8_000;
+const HOOK_WATCHDOG_MS: u64 = 10_000;
 
 fn hook_child(codes: &[usize]) -> ! {
     use std::sync::atomic::AtomicBool;
@@ -418,7 +418,7 @@ fn run_child(w: usize, n: usize, p: usize, scenario: usize) -> bool {
 /// a history of API calls ending (usually) in a panic in a live pipe.
 /// 85% structured: pipes are created / dropped / trained over while alive, the panic hits a live pipe; foreign hooks,
 /// panics elsewhere and the stdout lock are rare because under the unchanged code they are the only sources of a
-/// blocked child (8 s each). 15% arbitrary codes.
+/// blocked child (10 s each). 15% arbitrary codes.
 fn gen_hook_ops(rng: &mut Rng) -> Vec<usize> {
     if rng.chance(15, 100) {
         loop {
@@ -429,12 +429,44 @@ fn gen_hook_ops(rng: &mut Rng) -> Vec<usize> {
             }
         }
     }
+    if rng.chance(1, 10) {
+        // code outside the crate installs its own hook between two pipes: the younger pipe must be protected again
+        let mut ops = vec![rng.range(0, 3)];
+        if rng.chance(1, 2) {
+            ops.push(8);
+        }
+        if rng.chance(1, 3) {
+            ops.push(16);
+        }
+        ops.push(40);
+        if rng.chance(1, 3) {
+            ops.push(16);
+        }
+        ops.push(rng.range(1, 3));
+        ops.push(25);
+        return ops;
+    }
     let mut ops = vec![];
     let mut pipes: Vec<(usize, bool)> = vec![]; // threads, live
     let len = rng.range(1, 9);
     let with_foreign = rng.chance(1, 10);
     let with_lock = rng.chance(1, 6);
-    let with_elsewhere = rng.chance(1, 8);
+    let with_elsewhere = rng.chance(1, 3);
+    if rng.chance(1, 4) {
+        // before any threaded pipe exists panics are not fatal: the number of lines they print tells which
+        // hook is installed (one line per train_bpe since the repair)
+        for _ in 0..rng.range(1, 4) {
+            let r = rng.below(100);
+            if r < 50 {
+                ops.push(16);
+            } else if r < 85 {
+                ops.push(32);
+            } else {
+                pipes.push((0, true));
+                ops.push(0);
+            }
+        }
+    }
     for _ in 0..len {
         let live: Vec<usize> = (0..pipes.len()).filter(|i| pipes[*i].1).collect();
         let r = rng.below(100);
@@ -534,9 +566,9 @@ impl Prop for C09 {
         let m = rng.below(100);
         let mode = if m < 44 {
             0
-        } else if m < 82 {
+        } else if m < 81 {
             1
-        } else if m < 87 {
+        } else if m < 85 {
             2
         } else if m < 92 {
             5
@@ -755,6 +787,9 @@ impl Prop for C09 {
                 let (status, counts) = run_hook_child(&codes);
                 tags.extend(hook_tags(&codes));
                 tags.push(format!("status{status}"));
+                if counts.iter().any(|c| *c > 0) {
+                    tags.push("printed".into());
+                }
                 Val::L(vec![Val::I(status), Val::list(counts.iter(), |c| Val::u(*c))])
             }
             _ => return None,
